@@ -33,12 +33,12 @@ PROPS = ['PermEquivariant', 'ShiftKeepsVar']
 CLASSES = ['scalar/plain', 'vector/plain', 'vector/nc', 'matrix/plain', 'matrix/nc', '3-stack/plain', '3-stack/nc']
 
 
-def cfg(level, ns, chainlen, steps, emitmod=1):
+def cfg(level, ns, chainlen, steps, emitmod=1, perm=True):
     lines = ['CONSTANTS', f'  Level = {level}', '  VarInputs <- VarGrid',
              '  Ns = {' + ', '.join(str(n) for n in ns) + '}',
              '  MeanInputs <- MeanGrid', '  FixedInputs <- FixedGrid', f'  ChainLen = {chainlen}',
-             '  ShiftSteps = {' + ', '.join(str(s) for s in steps) + '}', f'  EmitMod = {emitmod}',
-             'INIT Init', 'NEXT Next']
+             '  ShiftSteps = {' + ', '.join(str(s) for s in steps) + '}', f'  DoPerm = {"TRUE" if perm else "FALSE"}',
+             f'  EmitMod = {emitmod}', 'INIT Init', 'NEXT Next']
     lines += [f'INVARIANT {i}' for i in INVS]
     lines += [f'PROPERTY {p}' for p in PROPS]
     lines.append('CHECK_DEADLOCK FALSE')
@@ -46,7 +46,7 @@ def cfg(level, ns, chainlen, steps, emitmod=1):
 
 
 TRACE_CFG = '\n'.join(['CONSTANTS', '  VarInputs <- NoInputs', '  Ns = {0}', '  MeanInputs <- NoInputs',
-                       '  FixedInputs <- NoInputs', '  ChainLen = 0', '  ShiftSteps = {1}', '  EmitMod = 1',
+                       '  FixedInputs <- NoInputs', '  ChainLen = 0', '  ShiftSteps = {1}', '  DoPerm = FALSE', '  EmitMod = 1',
                        'SPECIFICATION TSpec', 'CHECK_DEADLOCK FALSE']) + '\n'
 
 
